@@ -73,8 +73,21 @@ def part_inputs(tier):
   n = 0
   distinct = set()
   samples = []
-  for mac_label, text, redacted in MACS:
+  import io  # pylint: disable=g-import-not-at-top
+  for mac_label, text, redacted, foreign in [m + (f,) for f in (False, True) for m in MACS]:
     for shape_idx in range(len(shapes('x'))):
+      _run_inputs_case(h, test_state, mac_label, text, redacted, foreign, shape_idx, viols, distinct, samples)
+      n += 10
+  return n, len(distinct), viols, samples
+
+
+def _run_inputs_case(h, test_state, mac_label, text, redacted, foreign, shape_idx, viols, distinct, samples):
+  """One (MAC form, message shape) case over all logger kinds; with foreign=True every logger used also carries a
+  formatting handler of the user's own (a debug stream), which sees -- and formats -- each record first."""
+  import io  # pylint: disable=g-import-not-at-top
+  n = 0
+  if True:
+    if True:
       emitted = []
       raised = []
       holder = {}
@@ -90,10 +103,18 @@ def part_inputs(tier):
             label, msg, args, expect = shapes(text)[shape_idx]
             exp_red = shapes(redacted)[shape_idx][3]
             emitted.append((kind, lg.name, dest, exp_red))
+            fh = None
+            if foreign:
+              fh = logging.StreamHandler(io.StringIO())
+              fh.setFormatter(logging.Formatter('%(name)s %(message)s'))
+              lg.addHandler(fh)
             try:
               lg.warning(msg, *args)
             except Exception as e:  # pylint: disable=broad-except
               raised.append((kind, label, type(e).__name__, str(e)[:80]))
+            finally:
+              if fh is not None:
+                lg.removeHandler(fh)
         finally:
           holder['other_records'] = list(other.test_record.log_records)
           other.close()
@@ -119,7 +140,7 @@ def part_inputs(tier):
         distinct.add((kind, label, mac_label))
         want_mine = dest in (True, 'both')
         want_theirs = dest in ('other', 'both')
-        case = {'logger': kind, 'shape': label, 'mac': mac_label}
+        case = {'logger': kind, 'shape': label, 'mac': mac_label, 'foreign_handler': foreign}
         if len(samples) < 3 and mac_label == 'embedded':
           samples.append(dict(case, recorded=[r.message for r in mine]))
         for who, got, want in (('own run', mine, want_mine), ('other run', theirs, want_theirs)):
@@ -140,7 +161,6 @@ def part_inputs(tier):
             if r.source != 'c19.py' or not isinstance(r.lineno, int) or r.lineno <= 0 or not isinstance(r.timestamp_millis, int):
               viols.append(('inputs:metadata:%s' % kind, 'record metadata source=%r lineno=%r ts=%r' % (r.source, r.lineno, r.timestamp_millis),
                             {'part': 'inputs', 'case': case}))
-  return n, len(distinct), viols, samples
 
 
 def part_histories(tier):
@@ -252,8 +272,27 @@ GATE_FLT = [None]
 
 
 def _closing_filter(sched, me):
-  """Run B may start while run A is inside TestState.close() / remove_record_handler() (quick tier)."""
-  return me is not None and me.label.startswith(('L:remove_record_handler', 'L:close', 'rlock', 'lock'))
+  """Run B may start while run A is inside TestState.close() / remove_record_handler(), or in the middle of
+  dispatching a log record to its handler (quick tier)."""
+  if me is None:
+    return False
+  if me.label.startswith(('L:remove_record_handler', 'L:close', 'rlock', 'lock')):
+    return True
+  return me.label == _emit_entry_label()
+
+
+_EMIT = {}
+
+
+def _emit_entry_label():
+  """Label of the first executable line of RecordHandler.emit (text anchor: its `try:` line)."""
+  if 'l' not in _EMIT:
+    import inspect  # pylint: disable=g-import-not-at-top
+    from openhtf.util import logs  # pylint: disable=g-import-not-at-top
+    src, start = inspect.getsourcelines(logs.RecordHandler.emit)
+    off = next((i for i, line in enumerate(src) if line.strip() == 'try:'), 1)
+    _EMIT['l'] = 'L:emit:%d' % (start + off)
+  return _EMIT['l']
 
 
 def execute_s(choices):
